@@ -122,6 +122,10 @@ def c09_3(ctx):
         raise Undecided("BIP32Node.subkey does not memoise self._subkey(...) in self._subkey_cache")
     for e in stores:
         kelts = [norm(x) for x in e.key.elts] if isinstance(e.key, ast.Tuple) else [norm(e.key)]
+        if not (isinstance(e.value, ast.Call) and norm(e.value.func).endswith("._subkey")):
+            # an entry made from something else than a fresh derivation (the public copy of a child already in the memo, say)
+            ctx.undecided("memo-key-covers-arguments", ctx.where(f, e.node), "BIP32Node.subkey stores `%s` in the memo: not a call of _subkey whose arguments this rule can hold against the key" % norm(e.value)[:70])
+            continue
         args = [norm(a) for a in e.value.args] if isinstance(e.value, ast.Call) else []
         ctx.check(kelts == args, "memo-key-covers-arguments", ctx.where(f, e.node),
                   "the sub-key memo is keyed by %s but the memoised value is _subkey(%s): requests that differ in an argument missing from the key share one slot (e.g. the private and the public child)" % (kelts, args),
